@@ -193,6 +193,16 @@ Section Archive.
   Definition pf_run (batches : list (list ind)) : option hof :=
     fold_left (fun o b => match o with None => None | Some h => pf_update h b end)
               batches (Some empty).
+
+  (* the same, continuing from an archive that already holds members (after a direct remove /
+     insert, a change of maxsize or of the similarity operator between calls) *)
+  Definition hof_run_from (maxsize : Z) (h0 : hof) (batches : list (list ind)) : option hof :=
+    fold_left (fun o b => match o with None => None | Some h => hof_update maxsize h b end)
+              batches (Some h0).
+
+  Definition pf_run_from (h0 : hof) (batches : list (list ind)) : option hof :=
+    fold_left (fun o b => match o with None => None | Some h => pf_update h b end)
+              batches (Some h0).
 End Archive.
 
 Arguments mkhof {ind}.
